@@ -68,7 +68,8 @@ def _rand_system(W, strided=True, zero_dim_flow=False):
     rng = W.rng
     T = Dimension(name="Time", letter="t", items=[2000 + 5 * k for k in range(rng.choice([3, 4]))], dtype=int)
     R = Dimension(name="Region", letter="r", items=["EU 27", "rest (world)", "A=>B"][: rng.choice([1, 2, 3])])
-    P = Dimension(name="Product", letter="p", items=["bus", "car, small"][: rng.choice([1, 2])])
+    # (str-typed items that look like numbers: a CSV file carries no types)
+    P = Dimension(name="Product", letter="p", items=rng.choice([["bus", "car, small"], ["1000", "3000"]])[: rng.choice([1, 2])], dtype=str)
     dims = DimensionSet(dim_list=[T, R, P])
     procs = make_processes(["sysenv", "fabrication & co.", "in use (fleet)"])
 
@@ -275,7 +276,7 @@ class Recorder:
 def sk_sankey(tier):
     out = []
     for g in ("chain_mixed_dims", "parallel_and_opposing", "with_stock", "self_loop", "no_stocks_scalar_flows", "inner_ring_mixed_dims"):
-        for opt in ("default", "exclude_flow", "exclude_process", "slice_item", "split_by_dim"):
+        for opt in ("default", "exclude_flow", "exclude_process", "slice_item", "slice_item_by_name", "split_by_dim"):
             out.append({"graph": g, "opt": opt, "table": "as_listed"})
     # process table in another order than the ids (ids are not positions)
     for opt in ("default", "exclude_process", "slice_item"):
@@ -323,16 +324,21 @@ def u_sankey(W, sk):
     elif opt == "exclude_process":
         excluded_p = ["sysenv", "B"] if "B" in S.processes else ["sysenv"]
         kw["exclude_processes"] = excluded_p
-    elif opt == "slice_item":
+    elif opt in ("slice_item", "slice_item_by_name"):
         item, pos = W.item_in(S.D["e"], "sl_e")
         slice_dict = {"e": item}
-        kw["slice_dict"] = slice_dict
+        # keyed by the dimension's name: either refused, or the links are sliced all the same
+        kw["slice_dict"] = slice_dict if opt == "slice_item" else {S.D["e"].name: item}
     elif opt == "split_by_dim":
         # flows that have 'e' are split by a 2-item element dimension: rebuild 'e' as a concrete dimension
         return _sankey_split(W, sk)
     snaps = SL.snapshot(W, S.arrays())
     rec = Recorder()
     out = W.call(lambda: sk_mod.PlotlySankeyPlotter(mfa=mfa, **kw))
+    if opt == "slice_item_by_name" and out.kind == "raise":
+        W.prove("sankey.slice_by_name.refused_with_ValueError", isinstance(out.exc, ValueError), detail=repr(out))
+        SL.check_unchanged(W, "sankey", snaps)
+        return
     W.prove("sankey.plotter_constructed", out.kind == "return", detail=repr(out))
     if out.kind != "return":
         return
@@ -342,7 +348,7 @@ def u_sankey(W, sk):
     if o2.kind != "return":
         return
     links, nodes = o2.value
-    W.prove("sankey.plotter_settings_unchanged", dict(plotter.slice_dict) == dict(slice_dict) and list(plotter.exclude_processes) == list(excluded_p) and list(plotter.exclude_flows) == list(excluded_f), kind="frame", detail=f"slice_dict {plotter.slice_dict}")
+    W.prove("sankey.plotter_settings_unchanged", dict(plotter.slice_dict) == dict(kw.get("slice_dict", {})) and list(plotter.exclude_processes) == list(excluded_p) and list(plotter.exclude_flows) == list(excluded_f), kind="frame", detail=f"slice_dict {plotter.slice_dict}")
     o3 = W.call(lambda: plotter._get_links_dict())
     W.prove("sankey.links_same_on_second_call", o3.kind == "return" and o3.value["label"] == links["label"] and o3.value["source"] == links["source"] and o3.value["target"] == links["target"] and len(o3.value["value"]) == len(links["value"]) and all(bool(W.num_eq(a, b)) for a, b in zip(o3.value["value"], links["value"])))
     shown_p = [p for p in S.processes if p not in excluded_p]
